@@ -202,9 +202,6 @@ func c01CLI(fc filesCase) core.Outcome {
 		msg, frame := core.CrashSig(se)
 		o.Violation = fmt.Sprintf("sysl pb crashed (exit %d): %s at %s on %q", code, msg, frame, fc.Files)
 		o.Sig = "cli-crash|" + frame + "|" + msg
-	case code == 0 && strings.TrimSpace(so) == "":
-		o.Violation = fmt.Sprintf("sysl pb exit 0 without output on %q", fc.Files)
-		o.Sig = "cli-no-output"
 	case code != 0 && strings.TrimSpace(se) == "":
 		o.Violation = fmt.Sprintf("sysl pb exit %d without a message on %q", code, fc.Files)
 		o.Sig = "cli-no-message"
